@@ -415,3 +415,93 @@ def apply_op(kind, h, op):
     except Exception as e:  # noqa: the library is the thing under test
         return e
     return None
+
+
+# ------------------------------------------------- content extraction / rebuilding
+def extract(kind, h):
+    """Abstract content of a library object, read through the public API only, with the
+    real Python values (used to rebuild twins and to compute expected derivations)."""
+    import json
+
+    cp = lambda x: json.loads(json.dumps(x))  # noqa
+    nodes = {}
+    nm = h.get_nodes(metadata=True)
+    for n in h.get_nodes():
+        nodes[n] = cp(nm[n]) if n in nm else None
+    edges = []
+    for e in h.get_edges():
+        if kind in ("H", "D"):
+            w, md = h.get_weight(e), h.get_edge_metadata(e)
+        elif kind == "T":
+            w, md = h.get_weight(e[1], e[0]), h.get_edge_metadata(e[1], e[0])
+        else:
+            w, md = h.get_weight(e[0], e[1]), h.get_edge_metadata(e[0], e[1])
+        edges.append([e, w, cp(md)])
+    return {"kind": kind, "weighted": h.is_weighted(), "hmeta": cp(h.get_hypergraph_metadata()),
+            "nodes": nodes, "edges": edges}
+
+
+def content_digest(c):
+    from .core import digest
+
+    kind = c["kind"]
+    return digest({
+        "kind": kind, "weighted": tag(c["weighted"]), "hmeta": cmeta(c["hmeta"]),
+        "nodes": {tag(n): cmeta(md) for n, md in c["nodes"].items()},
+        "edges": sorted([cedge(kind, e), tag(w), cmeta(md)] for e, w, md in c["edges"]),
+    })
+
+
+def build(kind, c, rng=None, weighted=None):
+    """A fresh library object with content c, inserted in sorted order (rng None) or in a
+    shuffled order with the nodes of every hyperedge permuted."""
+    import json
+
+    cp = lambda x: json.loads(json.dumps(x))  # noqa
+    wtd = c["weighted"] if weighted is None else weighted
+    h = new_object(kind, wtd)
+    nodes = sorted(c["nodes"], key=tag)
+    edges = sorted(c["edges"], key=lambda r: cedge(kind, r[0]))
+    if rng is not None:
+        rng.shuffle(nodes)
+        rng.shuffle(edges)
+
+    def perm(t):
+        t = list(t)
+        if rng is not None:
+            rng.shuffle(t)
+        return tuple(t)
+
+    def add_edges():
+        for e, w, md in edges:
+            kw = {"metadata": cp(md)}
+            if wtd:
+                kw["weight"] = w
+            if kind == "H":
+                h.add_edge(perm(e), **kw)
+            elif kind == "D":
+                h.add_edge((perm(e[0]), perm(e[1])), **kw)
+            elif kind == "T":
+                h.add_edge(perm(e[1]), e[0], **kw)
+            else:
+                h.add_edge(perm(e[0]), e[1], **kw)
+
+    def add_nodes():
+        for n in nodes:
+            h.add_node(n, cp(c["nodes"][n]))
+
+    if rng is not None and kind != "M" and rng.random() < 0.5:
+        # hyperedges first: their nodes get {} and then keep/receive the metadata
+        add_edges()
+        for n in nodes:
+            md = c["nodes"][n]
+            if kind == "M":
+                h.add_node(n, cp(md))  # add_node fills an empty record (no set_node_metadata on multiplex)
+            else:
+                h.add_node(n)
+                h.set_node_metadata(n, cp(md))
+    else:
+        add_nodes()
+        add_edges()
+    h.set_hypergraph_metadata(cp(c["hmeta"]))
+    return h
